@@ -26,6 +26,7 @@ P1_RULE = ("histories generated from one SplitMix64 state: commits of 1..6 ops o
            "in at least two different pipeline stages at some observation point")
 
 HOOK_COMMITS = [
+    "c233bab verif hook: event when a committer parks on the full commit queue (cfg pdb_verif)",
     "754005b verif hook: yield point between two table writes of a record in enact_logs (cfg pdb_verif)",
     "7883075 verif hook: event journal at the pipeline hand-over sites (cfg pdb_verif)","7b1e3f5 verif hook: lowered initial ref-count table size for tests, yield points in commit_changes (cfg pdb_verif)",
                 "556ca83 verif hook: raw node bytes in the btree dump, Node::from_encoded on given bytes (cfg pdb_verif)",
@@ -99,7 +100,7 @@ PROPS = {
                        "lied by the harness and checked for admissibility); the file-level recovery model (Recover.lean, driver p1r) is fed by t"
                        "he p1 harness only. Props/C02x.lean is about single-operation commits with monotone addresses; crash recovery of multi-o"
                        "peration tree transactions with address reuse is covered by the c02x correspondence and oracle, not by a theorem."),
-        "lean": ["Pdb.Props.C02", "Pdb.Props.C02Real", "Pdb.Props.C01b", "Pdb.Props.C02x", "Pdb.Proofs.Order", "Pdb.Props.C02RealWal", "Pdb.Props.PhysRec", "Pdb.Props.PhysRecReplay", "Pdb.Props.PhysRecRc", "Pdb.Props.PhysRecGrow", "Pdb.Props.C02xTx"],
+        "lean": ["Pdb.Props.C02", "Pdb.Props.C02Real", "Pdb.Props.C01b", "Pdb.Props.C02x", "Pdb.Proofs.Order", "Pdb.Props.C02RealWal", "Pdb.Props.PhysRec", "Pdb.Props.PhysRecReplay", "Pdb.Props.PhysRecRc", "Pdb.Props.PhysRecGrow", "Pdb.Props.C02xTx", "Pdb.Props.PhysRecV", "Pdb.Props.PhysRecD", "Pdb.Props.PhysRecChain"],
         "harness": [{"cmd": "p1", "quick": 250, "thorough": 15000},
                     {"cmd": "c02x", "quick": 450, "thorough": 4000, "timeout": 7200},
                     {"cmd": "physrec", "quick": 60, "thorough": 60, "timeout": 3000}],
@@ -243,7 +244,7 @@ PROPS = {
                        "t `replaytab` compares). Not modelled: resource exhaustion driven by a record with a valid checksum (file growth by INSE"
                        "RT_VALUE index, index files up to 2^58 bytes, ref-count cache scan), what happens after replay inside Db::open (init_tab"
                        "le_data: findings F3e, fixed by 75ecce0). Known findings F3b, F3c, F3d."),
-        "lean": ["Pdb.Props.C13", "Pdb.Proofs.GenBits", "Pdb.Props.PhysRec", "Pdb.Props.PhysRecReplay", "Pdb.Props.PhysRecRc", "Pdb.Props.PhysRecGrow"],
+        "lean": ["Pdb.Props.C13", "Pdb.Proofs.GenBits", "Pdb.Props.PhysRec", "Pdb.Props.PhysRecReplay", "Pdb.Props.PhysRecRc", "Pdb.Props.PhysRecGrow", "Pdb.Props.PhysRecV", "Pdb.Props.PhysRecD", "Pdb.Props.PhysRecChain"],
         "harness": [{"cmd": "c13", "quick": 250, "thorough": 500, "max_search": 3000, "timeout": 3000}],
         "rule": ("c13: fixed cases first. 41 corpus byte patterns (replaylast). 15 scripted scenarios: F3b, F3c, F3d, and 6 index-growth s"
                  "cenarios (growth record pending, cut or accepted, DROP_TABLE record pending, accepted or bit-flipped, logs replayed over"
@@ -332,7 +333,7 @@ PROPS = {
                        " multitree columns is not covered here; A-hash for root keys. C10T_rc_tables_refine models a reindex pass of the ref-cou"
                        "nt tables as one atomic step (whole front table copied and dropped); batches interleaved with count changes are covered "
                        "by per-entry lemmas and by the dump checker on real tables, not by the run theorem."),
-        "lean": ["Pdb.Props.C10", "Pdb.Props.C14DumpRc", "Pdb.Props.RefineMt", "Pdb.Props.C02xTx", "Pdb.Proofs.OrderStorage", "Pdb.Proofs.OrderStorageRun", "Pdb.Proofs.OrderStoragePins"],
+        "lean": ["Pdb.Props.C10", "Pdb.Props.C14DumpRc", "Pdb.Props.RefineMt", "Pdb.Props.C02xTx", "Pdb.Proofs.OrderStorage", "Pdb.Proofs.OrderStorageRun", "Pdb.Proofs.OrderStoragePins", "Pdb.Props.RefineMtTx", "Pdb.Props.RefineMtSat", "Pdb.Props.RefineMtRepl"],
         "harness": [{"cmd": "c10", "quick": 400, "thorough": 6000, "max_search": 20000},
                     {"cmd": "mtphys", "quick": 60, "thorough": 1500, "timeout": 3000}],
         "rule": ("histories from SplitMix64 states on a Db with 1..3 multitree columns (variants append_only / ref_counted roots / plain) "
@@ -475,7 +476,7 @@ PROPS = {
                        "surviving log prefix is rejected whole (C13); stores are observed as page diffs at stepping-API boundaries and at every interposed sync / "
                        "truncate / unlink inside enact / open (single-threaded), not per store; pages of an enact call with several records are attributed to "
                        "every record of the call; a replayed record that was applied before is journalled with the stores of its first application."),
-        "lean": ["Pdb.Props.C12", "Pdb.Proofs.Order", "Pdb.Props.PhysRec", "Pdb.Props.PhysRecReplay", "Pdb.Props.PhysRecRc", "Pdb.Props.PhysRecGrow"],
+        "lean": ["Pdb.Props.C12", "Pdb.Proofs.Order", "Pdb.Props.PhysRec", "Pdb.Props.PhysRecReplay", "Pdb.Props.PhysRecRc", "Pdb.Props.PhysRecGrow", "Pdb.Props.PhysRecV", "Pdb.Props.PhysRecD", "Pdb.Props.PhysRecChain"],
         "harness": [{"cmd": "c12", "quick": 400, "thorough": 8000, "max_search": 40000},
                     {"cmd": "c12x", "quick": 5, "thorough": 100, "max_search": 200}],
         "rule": ("histories from one SplitMix64 state: 1..3 columns (plain / preimage / rc, hash or btree, uniform or salted, lz4), 3..12 keys per "
@@ -783,7 +784,7 @@ PROPS = {
         "trusted": ["hook Db::verif_dump / verif_reindex_state (cfg pdb_verif)"],
     },
     "C14": {
-        "lean": ["Pdb.Props.C14", "Pdb.Props.C09Total", "Pdb.Props.C09F24", "Pdb.Props.C14Dump", "Pdb.Props.C14DumpRc", "Pdb.Props.RefineMt", "Pdb.Props.C07Iter", "Pdb.Props.RefineBt", "Pdb.Props.C02xTx", "Pdb.Proofs.OrderStorage", "Pdb.Proofs.OrderStorageRun", "Pdb.Proofs.OrderStoragePins", "Pdb.Props.C09NoStale"],
+        "lean": ["Pdb.Props.C14", "Pdb.Props.C09Total", "Pdb.Props.C09F24", "Pdb.Props.C14Dump", "Pdb.Props.C14DumpRc", "Pdb.Props.RefineMt", "Pdb.Props.C07Iter", "Pdb.Props.RefineBt", "Pdb.Props.C02xTx", "Pdb.Proofs.OrderStorage", "Pdb.Proofs.OrderStorageRun", "Pdb.Proofs.OrderStoragePins", "Pdb.Props.C09NoStale", "Pdb.Props.RefineMtTx"],
         "harness": [{"cmd": "c09", "quick": 48, "thorough": 600, "timeout": 3000},
                     {"cmd": "c10", "quick": 100, "thorough": 1500},
                     {"cmd": "c02x", "quick": 150, "thorough": 2000, "timeout": 7200},
